@@ -22,6 +22,7 @@ DELTAS = [-86400, -3601, -3600, -1, 0, 1, 1799, 3599, 3600, 3601, 7200, 86400]
 VARIANTS = [dict(), dict(order=1), dict(fold=True), dict(crlf=False), dict(order=1, fold=True, crlf=False),
             dict(rdate_years=tuple(range(1990, 2031))), dict(rdate_years=tuple(range(1990, 2031)), order=1)]
 YEARS = (1995, 2024)
+FIRST_YEAR = 1990           # posixmenu.vtimezone writes its DTSTARTs in this year
 
 
 def specs(k):
@@ -67,8 +68,12 @@ def eval_spec(arg):
     UTC = tz.UTC
     n = 0
     walls = []
-    for year in YEARS:
-        for t in p.trans_utc(year):
+    # the definition's first year: DTSTART itself is an onset (also of a component that lists RDATEs), so from the
+    # earlier of the two DTSTARTs on the zone already follows the rules
+    # Only the later of the two is probed: what precedes the very first onset is "the first STANDARD component", so
+    # whether that onset is a fold or a gap is not something the two zones have to agree on.
+    for year in (FIRST_YEAR,) + YEARS:
+        for t in (p.trans_utc(year) if year != FIRST_YEAR else (max(p.trans_utc(year)),)):
             for dl in DELTAS:
                 u = (t + D.timedelta(seconds=dl)).replace(tzinfo=UTC)
                 n += 1
@@ -226,8 +231,8 @@ def run(ctx):
     misc = [('two-zones',), ('single',), ('empty-file',)] + malformed_menu()
     ctx.explore('tzid-and-malformed', misc, 'eval_misc', serial=True)
     ctx.coverage_extra.update({
-        'bounds': {'deviation_bound_k': k, 'rule_specs': len(shs), 'variants': len(VARIANTS), 'years': list(YEARS)},
-        'rule': 'rule specs (M-form, times inside the day) with <= k deviations x 7 text variants; UTC-side probes around 4 transitions, '
+        'bounds': {'deviation_bound_k': k, 'rule_specs': len(shs), 'variants': len(VARIANTS), 'years': [FIRST_YEAR] + list(YEARS)},
+        'rule': 'rule specs (M-form, times inside the day) with <= k deviations x 7 text variants; UTC-side probes around 5 transitions (in the first year of the definition the second onset only), '
                 'wall-side probes with both folds, 3 rotated replays across the lookup cache, 3 instants before the first onset',
     })
     ctx.assumptions += ['tzstr of the same rule is the comparison zone and refs/posix_tz_ref.py the independent reference for it']
